@@ -31,7 +31,7 @@ CLAIMED = {
         "(they assert). Found and fixed: vertex hash separated coinciding vertices at coarse resolutions (known_findings.json).",
         "DESIGN.md 3.9, 5/C16, 11"),
     "C07": (
-        "TLC: set-level semantics of centre containment (H3Polygon.tla) + TLC trace validation of both fill algorithms against independent three-valued point-in-polygon observations, candidate set closed under the spec's neighbour graph",
+        "TLC: set-level semantics of centre containment (H3Polygon.tla) + TLC trace validation of both fill algorithms against independent three-valued point-in-polygon observations, candidate set closed under the spec's neighbour graph + state-machine models of the hierarchical iterator, the bounding-box logic and the legacy flood fill",
         "H3Polygon.tla states what a centre-containment fill is in terms of sets of cells and per-cell observations; MC_Polygon "
         "shows the mode clauses are satisfiable for every observation assignment geometry allows and force nesting on clear "
         "cells. Every recorded (polygon, resolution) pair is validated by TLC (Trace_Poly.tla, WHICH=C07): polygonToCells and "
@@ -47,7 +47,7 @@ CLAIMED = {
         "inside cell in a connected piece of the inside set that neither the raster (0.55 edge lengths) nor any output touches.",
         "DESIGN.md 3.9, 5/C07, 11"),
     "C15": (
-        "TLC: set-level semantics of the four containment modes + nesting (H3Polygon.tla, MC_Polygon) + TLC trace validation of all modes, capacity and flag errors against independent three-valued geometric observations",
+        "TLC: set-level semantics of the four containment modes + nesting (H3Polygon.tla, MC_Polygon) + TLC trace validation of all modes, capacity and flag errors against independent three-valued geometric observations + state-machine models of the hierarchical iterator and the bounding-box logic",
         "Same events as C07, judged with WHICH=C15: FULL only if centre and all vertices are (possibly) inside and always if the "
         "cell is clearly wholly interior; OVERLAPPING always if cell and polygon clearly share a point and never if clearly "
         "disjoint; FULL within CENTER within OVERLAPPING within OVERLAPPING_BBOX as sets; every mode duplicate-free, valid, "
@@ -122,7 +122,7 @@ CLAIMED = {
         "unconstrained on success (the property does not speak about them).",
         "DESIGN.md 3.11, 5/C20"),
     "C05": (
-        "TLC: whole-resolution neighbour graph as state space (r<=4/5) from a TLA+ transcription of h3NeighborRotations + TLC trace validation of all disk/ring calls against BFS",
+        "TLC: whole-resolution neighbour graph as state space (r<=4/5) from a TLA+ transcription of h3NeighborRotations + TLC trace validation of all disk/ring calls against BFS + TLA+ transcription of both unsafe ring walks checked against BFS from every origin (k<=4; hollow rings to k=12 at r<=1)",
         "h3NeighborRotations is transcribed into TLA+ over the frozen design tables (H3Grid.tla); TLC explores the "
         "complete graph of resolutions 0..4 (thorough: 5) as a state space and checks degree 6/5, distinctness, "
         "symmetry, closure and the exact cell count 2+120*7^r. The reference semantics Disk/Ring/Dist = BFS on that "
@@ -162,7 +162,7 @@ CLAIMED = {
         "on vertex ids (1e-12 rad clustering) by Trace_Geo (numeric projection, DESIGN 6).",
         "DESIGN.md 3.8, 5/C11"),
     "C09": (
-        "TLC trace validation of gridDistance / local IJ events against BFS distance on the TLA+ neighbour graph",
+        "TLC trace validation of gridDistance / local IJ events against BFS distance on the TLA+ neighbour graph + TLA+ transcription of cellToLocalIjk / localIjkToCell checked against BFS distances from every origin r<=2(3)",
         "The reference distance is breadth-first search on the graph generated by the TLA+ transcription of the "
         "neighbour function (checked as a whole-resolution state space). TLC validates: every ordered pair of "
         "resolution 0, every target of resolution 1 from 60 (thorough: all 842) origins and of resolution 2 from 96 "
@@ -182,7 +182,7 @@ CLAIMED = {
         "Trusted: TLC, H3Grid transcription, driver. Shortest-ness rests on size = gridDistance+1 together with C09.",
         "DESIGN.md 5/C14"),
     "C06": (
-        "TLC: reference compaction checked canonical on all subsets of small universes + TLC trace validation of compact/uncompact events",
+        "TLC: reference compaction checked canonical on all subsets of small universes + TLC trace validation of compact/uncompact events + one round of the hash-table algorithm as a state machine (all hashes, orders, multisets)",
         "Compact(S) is defined bottom-up on sets (H3Compact.tla) and, independently, canonical-ness is stated "
         "declaratively (valid, antichain, no complete sibling set, expands exactly to S); TLC checks the two agree for "
         "every S built from whole sibling groups plus a partial group under a pentagon base cell. Every recorded "
@@ -235,7 +235,7 @@ CLAIMED = {
         "DESIGN 4.3/6); tolerances are fixed at >= 10x the worst deviation measured on the pinned tree.",
         "DESIGN.md 3.6, 5/C08"),
     "C18": (
-        "TLC: interleaving model of threads/calls with a negative control + TLC trace validation of concurrent executions against the sequential reference; TSan reports are unconsumable events",
+        "TLC: interleaving model of threads/calls with a negative control + TLC trace validation of concurrent executions against the sequential reference; TSan reports are unconsumable events + cold-start executions with a hash baseline before the first library call",
         "H3Threads.tla: threads take Begin/End steps around calls; in the specified design no step writes library "
         "globals and every return equals the sequential result -- TLC explores all interleavings of 3 threads x 2 calls "
         "and must reject the variant with a library-owned scratch cell. Executions: a 48-call mixed workload is run "
@@ -290,7 +290,7 @@ def main():
                 replay_cmd_template="python3 tools/check.py --replay {path}",
                 engine="tlc",
                 level_claimed=dict(category=CATEGORY.get(p, "model_checking"), text=text, design_ref=ref),
-                level_note=note,
+                level_note=note + NOTE_EXTRA.get(p, ""),
                 technique=tech))
         else:
             na.append(dict(property_id=p, reason=NA.get(p, PENDING_REASON)))
@@ -320,6 +320,13 @@ def main():
 
 NA = {}
 CATEGORY = {}
+NOTE_EXTRA = {
+    "C05": " Open known finding (known_findings.json, DESIGN 11.3): gridRingUnsafe returns a wrong ring with E_SUCCESS when the ring "
+           "encloses >= 6 pentagons without touching one; the check prints two KNOWN-FINDING lines (executions and the design-level "
+           "counterexample MC_GridUnsafeWrap_r1) and exits 0; any other wrong ring is a VIOLATION.",
+    "C07": " Found and fixed: the legacy fill lost cells of thin polygons crossing the antimeridian (known_findings.json).",
+    "C15": " Also found and fixed: FULL returned cells that only touch a polygon made from cell boundaries at a vertex.",
+}
 
 if __name__ == "__main__":
     main()
